@@ -388,13 +388,45 @@ def strop_pipeline() -> typing.List[str]:
     if not mbody or not (isinstance(mbody[-1], ast.Return) and _is_name(mbody[-1].value, q_tok)):
         raise FailClosed(why + ' (does not end in `return <token>`)')
     xs = []
-    for st in mbody[:-1]:
+    full = False
+    checks = mbody[:-1]
+    if checks and isinstance(checks[-1], ast.For):
+        _whole_token_loop(checks[-1], q_tok, q_ty, why)
+        full = True
+        checks = checks[:-1]
+    for st in checks:
         x = _do_for_call(st.value, q_tok, q_ty, True) if isinstance(st, ast.Expr) else None
         if x is None:
             raise FailClosed(why + ' (statement is not self._do_for_type_and_all(self.<check>, token, type, True))')
         xs.append(x)
-    steps.append('PReverify [%s]' % '; '.join(xs))
+    steps.append('PReverify [%s] %s' % ('; '.join(xs), 'true' if full else 'false'))
     return steps
+
+
+def _whole_token_loop(st: ast.For, tok: str, ty: str, why: str) -> None:
+    """for K in ("all", <type>):
+           for P in self._token_encoding_rules_by_identifier_type.get(K, []):
+               if P.search(<token>): raise RuntimeError(...)                      (meaning: Gen/Strop.v full_ok)"""
+    why = why + ' (whole-token loop over the encoding rules)'
+    it = st.iter
+    if not (isinstance(st.target, ast.Name) and not st.orelse and isinstance(it, ast.Tuple) and len(it.elts) == 2
+            and isinstance(it.elts[0], ast.Constant) and it.elts[0].value == 'all' and _is_name(it.elts[1], ty)
+            and len(st.body) == 1 and isinstance(st.body[0], ast.For)):
+        raise FailClosed(why)
+    k = st.target.id
+    inner = st.body[0]
+    c = inner.iter
+    if not (isinstance(inner.target, ast.Name) and not inner.orelse and _is_call_attr(c, 'get', 2)
+            and isinstance(c.func.value, ast.Attribute) and _is_name(c.func.value.value, 'self')
+            and c.func.value.attr == '_token_encoding_rules_by_identifier_type' and _is_name(c.args[0], k)
+            and isinstance(c.args[1], ast.List) and not c.args[1].elts and len(inner.body) == 1 and isinstance(inner.body[0], ast.If)):
+        raise FailClosed(why)
+    pvar = inner.target.id
+    cond = inner.body[0]
+    if not (not cond.orelse and _is_call_attr(cond.test, 'search', 1) and _is_name(cond.test.func.value, pvar)
+            and _is_name(cond.test.args[0], tok) and len(cond.body) == 1 and isinstance(cond.body[0], ast.Raise)
+            and isinstance(cond.body[0].exc, ast.Call) and _is_name(cond.body[0].exc.func, 'RuntimeError')):
+        raise FailClosed(why)
 
 
 def _find_method(rel: str, cls_name: str, name: str) -> ast.FunctionDef:
@@ -591,8 +623,9 @@ def build_text(doc: dict) -> str:
                  + ''.join('Definition filter_id_steps_%s : list fstep := [%s].\n' % (ln, '; '.join(filter_id_steps(ln))) for ln in LANGS))
     steps = strop_pipeline()
     reverify = any(st.startswith('PReverify') for st in steps)
-    if reverify != strop_reverifies():
-        raise FailClosed('the two readings of the return statement of TokenEncoder.strop disagree')
+    full = any(st.startswith('PReverify') and st.endswith(' true') for st in steps)
+    parts.append('(* does _reverified apply the encoding rules to the whole token (pattern.search)? *)\n'
+                 'Definition strop_full_check : bool := %s.\n' % ('true' if full else 'false'))
     parts.append('(* the statements of TokenEncoder.strop, in order (walker: gen_c09.strop_pipeline; meaning: Strop.run_pipeline) *)\n'
                  'Definition strop_pipeline : list pstep :=\n  [%s].\n' % ';\n   '.join(steps))
     parts.append('(* does TokenEncoder.strop re-verify the token it returns (read with ast)? *)\n'
@@ -606,7 +639,7 @@ def build_text(doc: dict) -> str:
     parts.append('(* functools.lru_cache on TokenEncoder.strop: %s *)\nDefinition strop_lru_maxsize : option nat := %s.\n'
                  % ('maxsize=%d' % ms if ms is not None else 'absent', 'Some %d%%nat' % ms if ms is not None else 'None'))
     for ln in LANGS:
-        _emit_cfg(parts, ln, ln, doc['langs'][ln], reverify, None)
+        _emit_cfg(parts, ln, ln, doc['langs'][ln], reverify, None, full)
         c = doc['langs'][ln]
         types = sorted(set(c['patterns']) | set(c['rules']))
         parts.append('(* identifier types the language configures (keys of the two maps) *)\n' + _str_list('%s_id_types' % ln, types))
@@ -617,7 +650,7 @@ def build_text(doc: dict) -> str:
         odoc = dump_config(ov)
         parts.append('(* ' + '#' * 20 + ' override %d: %s ' % (k, _comment(json.dumps(ov, sort_keys=True))) + '#' * 20 + ' *)')
         for ln in LANGS:
-            _emit_cfg(parts, '%s_ov%d' % (ln, k), ln, odoc['langs'][ln], reverify, doc['langs'][ln])
+            _emit_cfg(parts, '%s_ov%d' % (ln, k), ln, odoc['langs'][ln], reverify, doc['langs'][ln], full)
         rows.append('(%s)' % ', '.join('cfg_%s_ov%d' % (ln, k) for ln in LANGS))
     hrows = []
     for i, (key, (pre, grp, tmpl)) in enumerate(sorted(HANDLER_DEFS.items())):
@@ -626,9 +659,23 @@ def build_text(doc: dict) -> str:
         hrows.append('(handler%d_pre, handler%d_grp, handler%d_tmpl)' % (i, i, i))
     parts.append('(* every failure handler a TokenEncoder of c, cpp, py has installed (kind HUnd in the records above) *)\n'
                  'Definition handlers_translated : list (re * re * list rpiece) :=\n  [%s].\n' % ';\n   '.join(hrows))
+    # overrides whose stropping affix is outside the identifier alphabet (finding F-STROP-ILLEGAL-AFFIX): data for the model
+    # correspondence only -- NOT part of cfgs_ov, whose entries all satisfy chk_sound
+    arows = []
+    for k, ov in enumerate(AFFIX_OVERRIDES):
+        odoc = dump_config(ov)
+        parts.append('(* ' + '#' * 20 + ' affix override %d: %s ' % (k, _comment(json.dumps(ov, sort_keys=True))) + '#' * 20 + ' *)')
+        for ln in LANGS:
+            _emit_cfg(parts, '%s_aff%d' % (ln, k), ln, odoc['langs'][ln], reverify, doc['langs'][ln], full)
+        arows.append('(%s)' % ', '.join('cfg_%s_aff%d' % (ln, k) for ln in LANGS))
+    parts.append('Definition cfgs_aff : list (strop_cfg * strop_cfg * strop_cfg) :=\n  [%s].\n' % ';\n   '.join(arows))
     parts.append('Definition cfgs_ov : list (strop_cfg * strop_cfg * strop_cfg) :=\n  [%s].\n' % ';\n   '.join(rows))
     return '\n'.join(parts)
 
+
+AFFIX_OVERRIDES = [{'stropping_suffix': '-'}, {'stropping_suffix': '/'}, {'stropping_suffix': '/../x'}, {'stropping_suffix': '..'},
+                   {'stropping_suffix': ' '}, {'stropping_suffix': ''}, {'stropping_suffix': '\u00e9'}, {'stropping_prefix': '-'},
+                   {'stropping_prefix': '', 'stropping_suffix': ''}, {'stropping_prefix': '_', 'stropping_suffix': '$x'}]
 
 OVERRIDE_CONFIGS = [
     {'stropping_prefix': '_pre_', 'stropping_suffix': '_post_'},
@@ -641,7 +688,7 @@ OVERRIDE_CONFIGS = [
 ]
 
 
-def _emit_cfg(parts: typing.List[str], name: str, ln: str, c: dict, reverify: bool, base: typing.Optional[dict]) -> None:
+def _emit_cfg(parts: typing.List[str], name: str, ln: str, c: dict, reverify: bool, base: typing.Optional[dict], full: bool = False) -> None:
     """definitions for one effective configuration; with `base`, fields equal to the base configuration reuse its definitions"""
     if not c['enable_stropping']:
         raise FailClosed('%s: enable_stropping is off by default (the filters would bypass the encoder)' % name)
@@ -680,11 +727,12 @@ def _emit_cfg(parts: typing.List[str], name: str, ln: str, c: dict, reverify: bo
         '  sc_collapse := %s;\n'
         '  sc_strop_handler := %s; (* %s *)\n'
         '  sc_enc_handler := %s; (* %s *)\n'
-        '  sc_reverify := %s\n|}.\n'
+        '  sc_reverify := %s;\n'
+        '  sc_full_check := %s\n|}.\n'
         % (name, res_name, pm, rm, _cstr(c['prefix']), _comment(repr(c['prefix'])), _cstr(c['suffix']), _comment(repr(c['suffix'])),
            _cstr(c['enc_prefix']), _comment(repr(c['enc_prefix'])), ws, 'true' if c['collapse'] else 'false',
            hs, _comment(str((c['strop_handler'] or {}).get('qualname'))), he, _comment(str((c['enc_handler'] or {}).get('qualname'))),
-           'true' if reverify else 'false'))
+           'true' if reverify else 'false', 'true' if full else 'false'))
 
 
 def gen_strop() -> typing.Tuple[bool, str]:
